@@ -57,6 +57,18 @@ def marker_text(vk, marker):
     return marker
 
 
+class FalsyObj(object):
+    """an empty container-like object (an unset key ring): falsy, but its repr quotes the secret"""
+    def __init__(self, m):
+        self.m = m
+
+    def __len__(self):
+        return 0
+
+    def __repr__(self):
+        return '<KeyRing (empty) master=%s>' % self.m
+
+
 class RaisingRepr(object):
     """a lazy handle / sealed vault: even asking for its repr fails (and the failure text quotes the secret)"""
     def __init__(self, m):
@@ -97,6 +109,10 @@ def build(rec, markers):
         res[NAMES[r['nc']]] = value_of(r['vk'], markers[r['nc']])
         if r['vk'] == 'obj' and r['nc'] in ('prefix', 'infix', 'suffix', 'exact') and rec.get('_variant', 0) % 2:
             res[NAMES[r['nc']]] = RaisingRepr(markers[r['nc']])     # a secret is never repr()-ed, so this is harmless
+        elif r['vk'] == 'obj' and rec.get('_variant', 0) % 4 == 2:
+            res[NAMES[r['nc']]] = FalsyObj(markers[r['nc']])       # redaction goes by the NAME; the value may be falsy
+        elif r['vk'] == 'str' and r['nc'] in ('prefix', 'infix', 'suffix', 'exact') and rec.get('_variant', 0) % 5 == 3:
+            res[NAMES[r['nc']]] = ''                                # an unset secret is still listed as redacted
     mws = []
     if 'cookie' in rec['mws']:
         ck_cls = SignedCookieMiddleware
